@@ -329,3 +329,36 @@ Proof.
   - destruct has; [|discriminate]. intros H. inversion H; subst. repeat split; discriminate.
 Qed.
 End BracketLaws.
+
+(* ---- Name and Label *)
+Theorem name_roundtrip n : is_name n = true -> name_match n = Some n.
+Proof. intros N. unfold name_match. now rewrite (is_name_strip n N), N. Qed.
+Theorem name_sound s n : name_match s = Some n -> is_name n = true /\ n = strip s.
+Proof. unfold name_match. destruct (is_name (strip s)) eqn:E; [|discriminate]. intros H. inversion H; subst. auto. Qed.
+Theorem name_blanks_around b1 b2 n : blanks b1 -> blanks b2 -> is_name n = true -> name_match (b1 ++ n ++ b2) = Some n.
+Proof.
+  intros B1 B2 N. unfold name_match.
+  assert (S : strip (b1 ++ n ++ b2) = n).
+  { unfold strip, rstrip. rewrite !rev_app_distr, <- app_assoc.
+    assert (LB : forall b t, blanks b -> lstrip (b ++ t) = lstrip t).
+    { clear. intros b t. unfold blanks. induction b as [|x r IH]; cbn [app]; [reflexivity|]. cbn [forallb]. intros H.
+      apply andb_true_iff in H as [H1 H2]. apply aeqb_eq in H1. subst. rewrite lstrip_space_cons. apply IH. exact H2. }
+    assert (RB : blanks (rev b2)).
+    { unfold blanks in *. rewrite forallb_forall in *. intros x Hx. apply B2. now apply in_rev. }
+    rewrite (LB (rev b2) _ RB).
+    pose proof (is_name_no_space n N) as NS.
+    assert (RN : forallb (fun c => negb (is_space c)) (rev n) = true).
+    { rewrite forallb_forall in *. intros x Hx. apply NS. now apply in_rev. }
+    destruct (rev n) as [|c r] eqn:ER.
+    { apply (f_equal (@rev ascii)) in ER. rewrite rev_involutive in ER. subst. discriminate. }
+    cbn [app]. cbn [forallb] in RN. apply andb_true_iff in RN as [C _]. apply negb_true_iff in C.
+    rewrite (lstrip_nonspace c _ C). change (c :: r ++ rev b1) with ((c :: r) ++ rev b1). rewrite <- ER.
+    rewrite rev_app_distr, !rev_involutive. rewrite (LB b1 n B1). apply starts_solid_lstrip. apply is_name_solid. exact N. }
+  now rewrite S, N.
+Qed.
+Theorem label_sound s l : label_match s = Some l -> l = s /\ 1 <= length s <= 5 /\ forallb is_digit s = true.
+Proof.
+  unfold label_match, is_label. destruct ((1 <=? length s) && (length s <=? 5) && forallb is_digit s) eqn:E; [|discriminate].
+  intros H. inversion H; subst. apply andb_true_iff in E as [E D]. apply andb_true_iff in E as [A B].
+  apply Nat.leb_le in A. apply Nat.leb_le in B. auto.
+Qed.
